@@ -142,15 +142,63 @@ Definition tenv_of (e : env) : tenv := fun n =>
   | Some (x, SSymbol) => TS (es e x)
   | None => TI 0
   end.
-(* placeholder c of sort s is the TFF constant c<suffix s>; any other constant is a symbolic
-   constant and denotes itself; predicates keep their name, all arguments are `general` *)
-Definition tstruct_of (FI : fint) (M : pint) : tstruct :=
+(* ---------- constants are interpreted by their DECLARATION ----------
+   An emitted problem declares every constant it uses:
+     tff(type_symbol_i, type, a: symbol).                 a SYMBOLIC CONSTANT: denotes itself
+     tff(type_function_constant_i, type, n_i: $int).      the PLACEHOLDER n of sort integer
+   so the meaning of a constant identifier is given by a constant signature [csig] (built from the
+   problem: Model/ProblemPrint.v [problem_csig]; recoverable from the declarations of the emitted
+   text: [csig_of_decls]) and NOT guessed from the shape of the name: the symbolic constants
+   `a_s`, `pos_i` and every renamed `p__s` denote themselves.  An identifier without an entry is
+   interpreted as before by its suffix ([const_by_suffix]: `c_g/_i/_s` = placeholder c, anything
+   else = itself); [tstruct_of] is the instance with the empty signature. *)
+Inductive cmeaning :=
+| CSelf                                   (* a symbolic constant: the symbol with that name *)
+| CPlace (c : string) (s : sort).         (* the placeholder c of sort s *)
+Definition csig := list (string * cmeaning).
+Fixpoint clookup (K : csig) (n : string) : option cmeaning :=
+  match K with
+  | [] => None
+  | (m, k) :: K' => if String.eqb n m then Some k else clookup K' n
+  end.
+Definition place_val (FI : fint) (c : string) (s : sort) : tval :=
+  match s with SGeneral => TG (fg FI c) | SInteger => TI (fi FI c) | SSymbol => TS (fs FI c) end.
+Definition const_by_suffix (FI : fint) (n : string) : tval :=
+  match decode n with
+  | Some (x, s) => place_val FI x s
+  | None => TS n
+  end.
+(* predicates keep their name, all arguments are `general` *)
+Definition tstruct_in (K : csig) (FI : fint) (M : pint) : tstruct :=
   mktstruct (fun p args => M p (map as_gen args))
-            (fun n => match decode n with
-                      | Some (x, SGeneral) => TG (fg FI x)
-                      | Some (x, SInteger) => TI (fi FI x)
-                      | Some (x, SSymbol) => TS (fs FI x)
-                      | None => TS n
+            (fun n => match clookup K n with
+                      | Some CSelf => TS n
+                      | Some (CPlace c s) => place_val FI c s
+                      | None => const_by_suffix FI n
                       end).
+(* without declarations: placeholder c of sort s is the TFF constant c<suffix s>; any other
+   constant is a symbolic constant and denotes itself *)
+Definition tstruct_of (FI : fint) (M : pint) : tstruct := tstruct_in [] FI M.
 
-(* EXTRACT: decode suffix *)
+(* the constant signature a list of TFF declarations determines: anthem names the declaration of
+   a symbolic constant `type_symbol_<i>` and that of a placeholder `type_function_constant_<i>`
+   (the identifier of a placeholder always carries its sort suffix) *)
+Definition decl_meaning (d : tff_decl) : option (string * cmeaning) :=
+  match d_sig d with
+  | SigFun [] _ =>
+      if String.prefix "type_symbol_" (d_name d) then Some (d_ident d, CSelf)
+      else if String.prefix "type_function_constant_" (d_name d) then
+        match decode (d_ident d) with
+        | Some (c, s) => Some (d_ident d, CPlace c s)
+        | None => None
+        end
+      else None
+  | _ => None
+  end.
+Fixpoint csig_of_decls (ds : list tff_decl) : csig :=
+  match ds with
+  | [] => []
+  | d :: ds' => match decl_meaning d with Some e => e :: csig_of_decls ds' | None => csig_of_decls ds' end
+  end.
+
+(* EXTRACT: decode suffix clookup csig_of_decls *)
